@@ -84,7 +84,8 @@ def _scenario(sid, beh, horizon=6):
             if x["op"] == "query":
                 x["exp"] = "any"   # the extra query may re-observe a referral: later predictions no longer apply
     sc = {"id": sid, "signed": bool(cfg["signed"]), "pNS": cfg["pNS"], "pDS": cfg["pDS"], "cNS": cfg["cNS"], "cDS": cfg["cDS"],
-          "childTTL": cfg["childTTL"], "child": cfg["child"], "deep": bool(cfg["deep"]), "valDelayMs": cfg["valDelay"], "steps": steps}
+          "childTTL": cfg["childTTL"], "child": cfg["child"], "deep": bool(cfg["deep"]), "valDelayMs": cfg["valDelay"], "steps": steps,
+          "wire": False, "prefetch": 0}
     return sc, changes, q_before, q_after
 
 
@@ -112,7 +113,7 @@ def run_pipe(ctx):
         if r.violated != want:
             raise vf.MachineryError("LeasePipe %s no longer violates %s (got %s): vacuous model?" % (cfg, want, r.violated))
     # ---- 2. scenarios ---------------------------------------------------------------------
-    want = 28 if not thorough else 160
+    want = 36 if not thorough else 200
     behs = ctx.tlc_behaviours(MOD, "MC_LP.tla", "Sim_LP.cfg", num=700 if not thorough else 5000, depth=16, timeout=900)
     strata, seen = {}, set()
     for bi, b in enumerate(behs):
@@ -137,6 +138,13 @@ def run_pipe(ctx):
                 picked.append(strata[s].pop())
     if len(picked) < min(want, 12):
         raise vf.MachineryError("LeasePipe simulation produced only %d usable scenarios" % len(picked))
+    # every scenario runs in one of four shapes: message-born / wire-born client queries, background refresh off /
+    # on (threshold 90 %: a lease-bounded entry is due for refresh on its first hit, so hot names are refreshed
+    # while the parent changes its mind)
+    for i, sc in enumerate(picked):
+        sc["wire"] = i % 2 == 1
+        sc["prefetch"] = 90 if (i // 2) % 2 == 1 else 0
+        sc["id"] += "%s%s" % ("w" if sc["wire"] else "m", "p" if sc["prefetch"] else "")
     ctx.log("C08 pipeline: %d behaviours simulated, %d strata, %d scenarios picked" % (len(behs), len(order), len(picked)))
     # ---- 3. replay ------------------------------------------------------------------------
     tot = {"cases": 0, "drift": 0, "counters": {}, "drift_notes": [], "skipped": []}
